@@ -181,6 +181,10 @@ def _blob_unpack_summary(c):
         c.assume(z3.And(kid[k] >= 0, kid[k] < 2**32))
     rest = uf_fields(c.I, "BLOB", t, {"sid": "str", "enc_cek": "bytes", "enc_cek_algorithm": "str", "enc_content": "bytes", "enc_content_algorithm": "str",
                                        "enc_cek_parameters": "bytes", "enc_content_parameters": "bytes"})
+    for k in ("enc_cek_parameters", "enc_content_parameters"):
+        # AlgorithmIdentifier.parameters is optional: None when the SEQUENCE ends after the OID
+        if c.ctx.branch(z3.Function("BLOB." + k + ".absent", Bytes, z3.BoolSort())(t)):
+            rest[k] = None
     f = {"kid": kid, **rest}
     b = blob_obj(c, f)
     b.ghost["data"] = t
